@@ -39,7 +39,10 @@ Reserved == { <<"n","e","w">>, <<"s","e","r","v","e">> }
 (* argty "ctx": a single argument that is itself called `ctx` and is a tarpc Context - the name the generated  *)
 (* glue uses for the request's context; "pattern": one argument written as a tuple pattern; "selfarg": a      *)
 (* method that takes `self` first - both refused by the macro's parser                                        *)
-Method == [name : Names, nargs : 0..2, argty : {"same", "diff", "ctx", "pattern", "selfarg"}, ret : {"unit", "int", "str"}]
+(* gate: the rpc carries #[cfg(..)]: "on" = a predicate that holds (the rpc exists), "off" = one that does not (the rpc  *)
+(* and everything generated for it vanish); whatever is gated, every remaining rpc must still be paired with itself       *)
+Method == [name : Names, nargs : 0..2, argty : {"same", "diff", "ctx", "pattern", "selfarg"}, ret : {"unit", "int", "str"},
+           gate : {"none", "on", "off"}]
 (* the macro's own arguments: none, derive = [..], derive_serde = false (deprecated form), both at once      *)
 (* (refused), derive twice (refused)                                                                          *)
 Attrs == {"none", "derive", "serde_false", "both", "twice"}
@@ -51,6 +54,10 @@ Next == /\ Len(svc) < MaxMethods
              /\ (m.nargs = 0 => m.argty = "same") /\ (m.nargs = 1 => m.argty \in {"same", "ctx", "selfarg"})
              /\ (m.nargs = 2 => m.argty \in {"same", "diff", "pattern"})
              /\ \A i \in DOMAIN svc : svc[i].name # m.name            \* Rust itself rejects duplicate fn names
+             \* gated rpcs: plain shapes only, and no variant clash involving them (what rustc says then depends on the gate)
+             /\ (m.gate # "none" => m.argty = "same" /\ m.nargs <= 1 /\ m.name \notin Reserved)
+             /\ (m.gate # "none" => \A i \in DOMAIN svc : svc[i].gate = "none")      \* at most one gated rpc per service
+             /\ \A i \in DOMAIN svc : (m.gate # "none" \/ svc[i].gate # "none") => SnakeToCamel(svc[i].name) # SnakeToCamel(m.name)
              /\ svc' = Append(svc, m)
         /\ UNCHANGED attr
 Spec == Init /\ [][Next]_<<svc, attr>>
